@@ -872,7 +872,7 @@ class Controller:
     feasibility oracle: callable(list_of_bool_nodes) -> 'sat' | 'unsat' | 'unknown'
     """
 
-    def __init__(self, oracle, max_paths=64, max_decisions=4000, max_seconds=90):
+    def __init__(self, oracle, max_paths=64, max_decisions=4000, max_seconds=600):
         self.oracle = oracle
         self.max_seconds = max_seconds
         # CPU time of this process, not wall-clock: the verdict must not depend on how busy the machine is
